@@ -16,6 +16,8 @@ import (
 	"math/big"
 	"net"
 	"net/http/httptest"
+	"os"
+	"path/filepath"
 	"reflect"
 	"strings"
 	"time"
@@ -33,6 +35,52 @@ const placeholder = "***REDACTED***"
 
 type keyPair struct {
 	cert, key, marker string
+	caPEM             string // the certificate as inline PEM (cert may be a path in the "path" form)
+}
+
+// curForm is the textual form in which the private keys of the current history are configured (ConfigRedact KeyForms).
+var curForm = "pem"
+
+// formKey renders a key pair in a form: all of them are accepted by MOSN's TLS code (mtls ConfigHooks.GetCertificate
+// takes anything containing "-----BEGIN" as inline and the PEM decoder skips what precedes / follows the block),
+// except "path", where private_key and cert_chain name files.
+func formKey(k keyPair, form string) keyPair {
+	out := k
+	out.caPEM = k.cert
+	switch form {
+	case "pem":
+	case "lead_ws":
+		out.key = " \n\n" + k.key // the block itself must start a line
+	case "preamble": // what `openssl pkcs12 -nodes` writes in front of the key block
+		out.key = "Bag Attributes\n    localKeyID: 01 02 03 04\nKey Attributes: <No Attributes>\n" + k.key
+	case "trailing":
+		out.key = k.key + "# rotated 2026-09-24 by ops\n\n"
+	case "crlf":
+		out.key = strings.Replace(k.key, "\n", "\r\n", -1)
+	case "two_blocks": // what `openssl ecparam -genkey` writes
+		out.key = "-----BEGIN EC PARAMETERS-----\nBggqhkjOPQMBBw==\n-----END EC PARAMETERS-----\n" + k.key
+	case "path":
+		dir := filepath.Join(*work, "keys")
+		vh.Must(os.MkdirAll(dir, 0755), "keys dir")
+		stem := strings.Map(safeFileRune, k.marker[:12])
+		kf := filepath.Join(dir, stem+".key")
+		cf := filepath.Join(dir, stem+".crt")
+		if _, err := os.Stat(kf); err != nil {
+			mustWrite(kf, []byte(k.key))
+			mustWrite(cf, []byte(k.cert))
+		}
+		out.key, out.cert = kf, cf
+	default:
+		vh.Must(fmt.Errorf("unknown key form %q", form), "case")
+	}
+	return out
+}
+
+func safeFileRune(r rune) rune {
+	if r == '+' || r == '=' || r == '/' {
+		return '_'
+	}
+	return r
 }
 
 // newKey makes a real certificate/key pair; the marker is a piece of the key's base64 body that
@@ -55,6 +103,7 @@ func newKey(cn string) keyPair {
 }
 
 type redactCase struct {
+	Form string                   `json:"form"` // textual form of every private key of the history
 	Init [][]interface{}          `json:"init"` // slots [position, element]
 	Ops  []map[string]interface{} `json:"ops"`
 }
@@ -83,14 +132,18 @@ func isArrayPos(p string) bool { return p == "sfa" || p == "exta" }
 func (r *redactor) take(n int) []keyPair {
 	out := []keyPair{}
 	for i := 0; i < n; i++ {
-		out = append(out, r.keys[r.next%len(r.keys)])
+		out = append(out, formKey(r.keys[r.next%len(r.keys)], curForm))
 		r.next++
 	}
 	return out
 }
 
 func tlsObj(kp keyPair, server bool) obj {
-	o := obj{"status": true, "cert_chain": kp.cert, "private_key": kp.key, "ca_cert": kp.cert}
+	ca := kp.caPEM
+	if ca == "" {
+		ca = kp.cert
+	}
+	o := obj{"status": true, "cert_chain": kp.cert, "private_key": kp.key, "ca_cert": ca}
 	if !server {
 		o["insecure_skip"] = true
 	}
@@ -330,7 +383,17 @@ func (r *redactor) dump(e string) {
 	} else {
 		equalCanon(x, y, "", &pd)
 	}
-	r.tr.Emit(vh.Ev{"ev": "dump", "e": e, "status": w.Code, "leaked": r.leakedIn(body),
+	pathShown := false
+	if curForm == "path" {
+		for _, ks := range r.live {
+			for _, k := range ks {
+				if strings.Contains(body, k.key) {
+					pathShown = true
+				}
+			}
+		}
+	}
+	r.tr.Emit(vh.Ev{"ev": "dump", "e": e, "status": w.Code, "leaked": r.leakedIn(body), "path_shown": pathShown,
 		"redacted": strings.Count(body, placeholder), "live_diff": strs(d), "persisted_diff": strs(pd), "bytes": len(body)})
 }
 
@@ -474,6 +537,10 @@ func runRedact() {
 		if err := json.Unmarshal(raw, &c); err != nil {
 			return err
 		}
+		curForm = c.Form
+		if curForm == "" {
+			curForm = "pem"
+		}
 		r := &redactor{tr: tr, keys: pool, next: i * 7, live: map[string][]liveKey{}, pat: map[string]string{}}
 		doc := gen.Skeleton(i)
 		initK := map[string][]int{}
@@ -494,7 +561,7 @@ func runRedact() {
 		if initEv == nil {
 			initEv = [][]interface{}{}
 		}
-		tr.Emit(vh.Ev{"ev": "new", "id": i, "init": initEv})
+		tr.Emit(vh.Ev{"ev": "new", "id": i, "init": initEv, "form": curForm})
 		life, err := Start(path)
 		if err != nil {
 			tr.Emit(vh.Ev{"ev": "start", "ok": false, "err": trunc(err.Error())})
@@ -527,7 +594,8 @@ func runRedact() {
 		for p, ks := range r.live {
 			all := len(ks) > 0
 			for _, k := range ks {
-				if !strings.Contains(string(persisted), strings.Replace(k.key, "\n", "\\n", -1)) {
+				esc, _ := json.Marshal(k.key) // the configured private_key exactly as given, as a JSON string
+				if !strings.Contains(string(persisted), string(esc[1:len(esc)-1])) {
 					all = false
 				}
 			}
